@@ -139,6 +139,10 @@ func (in *Interp) newMapIter(fr *frame, m *Map) iter {
 			}
 		}
 	}
+	if it.mode == "rotate" && len(it.entries) > 1 {
+		h := len(it.entries) / 2
+		it.entries = append(append([]*mapEntry{}, it.entries[h:]...), it.entries[:h]...)
+	}
 	if it.mode == "reverse" {
 		for i, j := 0, len(it.entries)-1; i < j; i, j = i+1, j-1 {
 			it.entries[i], it.entries[j] = it.entries[j], it.entries[i]
